@@ -422,6 +422,19 @@ func typedContainerOK(p *Prog, f *types.Var, role string, asserted types.Type) b
 
 // positiveDivisor: a dominating unsigned comparison x < d (or x >= d false) shows d > 0
 func positiveDivisor(in ssa.Instruction, d ssa.Value) bool {
+	// a widening conversion of an unsigned value keeps it positive
+	for {
+		cv, ok := d.(*ssa.Convert)
+		if !ok {
+			break
+		}
+		from, ok1 := cv.X.Type().Underlying().(*types.Basic)
+		to, ok2 := cv.Type().Underlying().(*types.Basic)
+		if !ok1 || !ok2 || from.Info()&types.IsUnsigned == 0 || to.Info()&types.IsInteger == 0 || basicBits(to) < basicBits(from) {
+			break
+		}
+		d = cv.X
+	}
 	for _, ct := range dominatingConds(in.Block()) {
 		bo, ok := ct.Cond.(*ssa.BinOp)
 		if !ok {
@@ -663,4 +676,20 @@ func matchMovedSite(short string, used map[string]int) (string, string) {
 		}
 	}
 	return "", ""
+}
+
+func basicBits(b *types.Basic) int {
+	switch b.Kind() {
+	case types.Int8, types.Uint8:
+		return 8
+	case types.Int16, types.Uint16:
+		return 16
+	case types.Int32, types.Uint32:
+		return 32
+	case types.Int64, types.Uint64:
+		return 64
+	case types.Int, types.Uint, types.Uintptr:
+		return 32 // the smaller of the supported word sizes: a conversion to it is only widening from <= 32 bits
+	}
+	return 0
 }
